@@ -350,6 +350,11 @@ class Lib:
             return self.comprehension(I, xs.node, xs.scope, 'set')
         if isinstance(xs, SMapped):
             return self.image(I, xs.f, xs.xs, 'set')
+        if isinstance(xs, SRange):
+            x = z3.Int('x!rng')
+            return SV(T('Set', INT), z3.Lambda([x], z3.And(xs.lo <= x, x < xs.hi)))
+        if isinstance(xs, SV) and xs.typ.kind == 'Map':
+            return SV(T('Set', xs.typ.args[0]), map_dom(xs))
         if isinstance(xs, SV) and xs.typ.kind == 'Seq':
             x = z3.Const('x!set', zsort(xs.typ.args[0]))
             i = z3.Int('i!set')
@@ -405,6 +410,16 @@ class Lib:
     def b_sorted(self, I, xs, **kw):
         if isinstance(xs, (list, tuple)) and all(isinstance(x, (int, str)) for x in xs) and not kw:
             return sorted(xs)
+        if isinstance(xs, SV) and xs.typ.kind == 'Set' and xs.typ.args[0].kind == 'Int' and not kw:
+            out = I.fresh(T('Seq', INT), 'sorted')
+            j, j2, x = z3.Int(I.path.name('j')), z3.Int(I.path.name('j2')), z3.Int(I.path.name('x'))
+            rank = z3.Function(I.path.name('rank'), z3.IntSort(), z3.IntSort())
+            n = seq_len(out)
+            I.path.assume(z3.ForAll([j], z3.Implies(z3.And(0 <= j, j < n), xs.t[seq_arr(out)[j]])))
+            I.path.assume(z3.ForAll([j, j2], z3.Implies(z3.And(0 <= j, j < j2, j2 < n), seq_arr(out)[j] < seq_arr(out)[j2])))
+            I.path.assume(z3.ForAll([x], z3.Implies(xs.t[x], z3.And(0 <= rank(x), rank(x) < n, seq_arr(out)[rank(x)] == x))))
+            self.use('sorted(set of int): strictly increasing sequence with the same members (finite sets)')
+            return out
         raise Undecided('sorted() of symbolic')
 
     def b_sum(self, I, xs, start=0):
@@ -494,7 +509,22 @@ class Lib:
             I.path.assume(seq_len(out) == ln)
             I.path.assume(z3.ForAll([i], z3.Implies(dom, seq_arr(out)[i] == e.t)))
             return out
-        raise Undecided('filtered list comprehension')
+        # filtered: out[j] = e(src[p(j)]) for a strictly increasing p that enumerates exactly the positions satisfying the filter
+        cond = z3.And(*conds) if len(conds) > 1 else conds[0]
+        pf = z3.Function(I.path.name('pick'), z3.IntSort(), z3.IntSort())
+        j, j2 = z3.Int(I.path.name('j')), z3.Int(I.path.name('j2'))
+        ln = self.iter_len(I, it)
+        lo = it.lo if isinstance(it, SRange) else z3.IntVal(0)
+        sub = lambda t, by: z3.substitute(t, (i, by))      # noqa
+        n_out = seq_len(out)
+        I.path.assume(z3.And(0 <= n_out, n_out <= ln))
+        I.path.assume(z3.ForAll([j], z3.Implies(z3.And(0 <= j, j < n_out),
+                                                z3.And(sub(dom, pf(j)), sub(cond, pf(j)), seq_arr(out)[j] == sub(e.t, pf(j))))))
+        I.path.assume(z3.ForAll([j, j2], z3.Implies(z3.And(0 <= j, j < j2, j2 < n_out), pf(j) < pf(j2))))
+        inv = z3.Function(I.path.name('unpick'), z3.IntSort(), z3.IntSort())
+        I.path.assume(z3.ForAll([i], z3.Implies(z3.And(dom, cond), z3.And(0 <= inv(i), inv(i) < n_out, pf(inv(i)) == i))))
+        self.use('list comprehension with a filter: order-preserving enumeration of the selected positions')
+        return out
 
     def iter_len(self, I, it):
         if isinstance(it, SV) and it.typ.kind == 'Seq':
@@ -508,7 +538,23 @@ class Lib:
         raise Undecided('length of iterable')
 
     def image(self, I, f, xs, kind):
-        raise Undecided('map() image')
+        '''set(map(f, xs)) for a symbolic set / sequence xs: membership only'''
+        sc = Scope(None, {})
+        tgt = ast.Name(id='x!img', ctx=ast.Store())
+        var, dom = self.iter_domain(I, xs, tgt, sc)
+        x = sc.lookup('x!img')
+        I.path.nofork += 1
+        I.path.guards.append(dom)
+        try:
+            e = I.call(f, [x], {})
+        finally:
+            I.path.guards.pop()
+            I.path.nofork -= 1
+        e = e if isinstance(e, SV) else lift(e)
+        st = I.fresh(T('Set', e.typ), 'image')
+        y = z3.Const(I.path.name('y'), zsort(e.typ))
+        I.path.assume(z3.ForAll([y], st.t[y] == z3.Exists(var, z3.And(dom, e.t == y))))
+        return st
 
     # ------------------------------------------------------------------ subscripts
     def getitem(self, I, recv, idx):
@@ -1003,9 +1049,46 @@ class Lib:
                 return map_mk(recv.typ, z3.Store(map_dom(recv), key.t, True), z3.Store(map_val(recv), key.t, val)), SV(vt, val)
             if name == 'clear':
                 return map_mk(recv.typ, z3.K(zsort(kt), z3.BoolVal(False)), map_val(recv)), None
+            if name == 'update' and len(args) == 1 and isinstance(args[0], SV) and args[0].typ == recv.typ:
+                o = args[0]
+                k = z3.Const('k!upd', zsort(kt))
+                dom = z3.Lambda([k], z3.Or(map_dom(recv)[k], map_dom(o)[k]))
+                val = z3.Lambda([k], z3.If(map_dom(o)[k], map_val(o)[k], map_val(recv)[k]))
+                return map_mk(recv.typ, dom, val), None
         raise Undecided(f'mutating method {name} on {recv.typ}')
 
     # Seq methods (value semantics: the engine writes back through method_mut)
+    def _as_set(self, I, x, et):
+        if isinstance(x, SV) and x.typ.kind == 'Set':
+            return x.t
+        if isinstance(x, SV) and x.typ.kind == 'Map':
+            return map_dom(x)
+        raise Undecided(f'set operation with {x!r}')
+
+    def m_Set_issubset(self, I, s, other):
+        o = self._as_set(I, other, s.typ.args[0])
+        x = z3.Const(I.path.name('x'), zsort(s.typ.args[0]))
+        return SV(BOOL, z3.ForAll([x], z3.Implies(s.t[x], o[x])))
+
+    def m_Set_intersection(self, I, s, other):
+        o = self._as_set(I, other, s.typ.args[0])
+        x = z3.Const('x!int', zsort(s.typ.args[0]))
+        return SV(s.typ, z3.Lambda([x], z3.And(s.t[x], o[x])))
+
+    def m_Set_union(self, I, s, other):
+        o = self._as_set(I, other, s.typ.args[0])
+        x = z3.Const('x!uni', zsort(s.typ.args[0]))
+        return SV(s.typ, z3.Lambda([x], z3.Or(s.t[x], o[x])))
+
+    def m_Set_copy(self, I, s):
+        return s
+
+    def m_Map_copy(self, I, m):
+        return m
+
+    def m_Seq_copy(self, I, m):
+        return m
+
     def m_Map_items(self, I, m):
         return SMapItems(m, 'items')
 
@@ -1046,6 +1129,11 @@ class Lib:
             it = I.eval(st.iter, scope)
             if isinstance(it, dict):
                 it = list(it.keys())
+            if isinstance(it, SObj):
+                model = I.world.class_model(it.cls)
+                if model is None or not hasattr(model, 'iter_value'):
+                    raise Undecided(f'iteration over {it!r}')
+                it = model.iter_value(I, it)
             if isinstance(it, (list, tuple, set, frozenset)):
                 broke = False
                 for x in list(it):
